@@ -368,7 +368,7 @@ func runReveal(raw json.RawMessage) (res *Result, err error) {
 		panicked = pv != nil
 	case <-deadCh:
 		dead = true // certain: a held mutex was requested again
-	case <-time.After(1500 * time.Millisecond):
+	case <-time.After(10 * time.Second):
 		dead = true // watchdog (any other way of not returning)
 	}
 	stk.VerifSetPoint(nil)
